@@ -78,4 +78,7 @@ def run(tier, seed, replay=None):
             rep.count("probe:unsized" if ("str" in ty or "[u8]" in ty) else "probe:sized")
         ok_plans.append(plan)
     shape.validate(rep, exe, ok_plans, PROP)
+    # the Lean model of the three generators (Expand.lean) against the real helper trait / helper impls / main impl
+    from . import expandcorr
+    expandcorr.compare(rep, exe, ok_plans)
     return rep.finish()
